@@ -14,6 +14,7 @@ import (
 	"encoding/json"
 	"flag"
 	"fmt"
+	"net"
 	"net/http"
 	"net/http/httptest"
 	"net/url"
@@ -57,18 +58,22 @@ type Obs struct {
 }
 
 type Case struct {
-	ID          int             `json:"id"`
-	Class       string          `json:"class"`
-	Method      string          `json:"method"`
-	Path        string          `json:"path"`
-	Params      []KV            `json:"params"`
-	Accept      string          `json:"accept,omitempty"`
-	Body        string          `json:"body,omitempty"` // raw POST body (else the parameters are sent as a form)
-	ContentType string          `json:"ctype,omitempty"`
-	WaitMs      int             `json:"wait_ms,omitempty"` // how long goroutines may take to wind down after the response (default 900)
-	Script      []ResultSet     `json:"script"`
-	Model       json.RawMessage `json:"model,omitempty"` // abstract description for the Coq model (nil = test-only case)
-	Obs         *Obs            `json:"obs,omitempty"`
+	ID          int    `json:"id"`
+	Class       string `json:"class"`
+	Method      string `json:"method"`
+	Path        string `json:"path"`
+	Params      []KV   `json:"params"`
+	Accept      string `json:"accept,omitempty"`
+	Body        string `json:"body,omitempty"` // raw POST body (else the parameters are sent as a form)
+	ContentType string `json:"ctype,omitempty"`
+	WaitMs      int    `json:"wait_ms,omitempty"` // how long goroutines may take to wind down after the response (default 900)
+	// the client goes away: in-process, the ResponseWriter fails (and the request context is cancelled) once this many
+	// bytes were written; with Tcp the request goes over a real connection that is reset after reading this many bytes
+	AbortAfter *int            `json:"abort_after,omitempty"`
+	Tcp        bool            `json:"tcp,omitempty"`
+	Script     []ResultSet     `json:"script"`
+	Model      json.RawMessage `json:"model,omitempty"` // abstract description for the Coq model (nil = test-only case)
+	Obs        *Obs            `json:"obs,omitempty"`
 }
 
 func unhex(s string) string {
@@ -131,6 +136,7 @@ func qrynFrames(text string) string {
 // ---------------------------------------------------------------- one case, in this process
 
 var router *mux.Router
+var leaksSeen int
 
 func setup() {
 	config.Cloki = clconfig.New(clconfig.CLOKI_READER, nil, "", "")
@@ -188,6 +194,122 @@ func buildRequest(c *Case, ctx context.Context) *http.Request {
 	return req
 }
 
+// abortWriter is a ResponseWriter whose client disappears after `limit` bytes: the write fails with EPIPE and, as
+// net/http does when the connection is gone, the request context is cancelled.
+type abortWriter struct {
+	rec     *httptest.ResponseRecorder
+	limit   int
+	written int
+	cancel  context.CancelFunc
+	failed  bool
+}
+
+func (a *abortWriter) Header() http.Header { return a.rec.Header() }
+func (a *abortWriter) WriteHeader(c int)   { a.rec.WriteHeader(c) }
+func (a *abortWriter) Write(b []byte) (int, error) {
+	if a.failed || a.written+len(b) > a.limit {
+		if !a.failed {
+			a.failed = true
+			a.cancel()
+		}
+		return 0, syscall.EPIPE
+	}
+	a.written += len(b)
+	return a.rec.Write(b)
+}
+
+var (
+	tcpOnce   sync.Once
+	tcpSrv    *httptest.Server
+	tcpDone   sync.Map // case id -> chan string (handler finished; panic text)
+	tcpStatus sync.Map
+)
+
+type statusWriter struct {
+	http.ResponseWriter
+	code int
+}
+
+func (s *statusWriter) WriteHeader(c int) { s.code = c; s.ResponseWriter.WriteHeader(c) }
+
+func tcpServer() *httptest.Server {
+	tcpOnce.Do(func() {
+		tcpSrv = httptest.NewServer(http.HandlerFunc(func(w http.ResponseWriter, r *http.Request) {
+			id := r.Header.Get("X-Case")
+			sw := &statusWriter{ResponseWriter: w, code: 200}
+			defer func() {
+				p := ""
+				if rv := recover(); rv != nil {
+					p = fmt.Sprint(rv)
+				}
+				tcpStatus.Store(id, sw.code)
+				if ch, ok := tcpDone.Load(id); ok {
+					ch.(chan string) <- p
+				}
+				if p != "" {
+					panic(http.ErrAbortHandler)
+				}
+			}()
+			router.ServeHTTP(sw, r)
+		}))
+	})
+	return tcpSrv
+}
+
+// serveTCP sends the request over a real connection, reads abortAfter bytes of the answer and resets the connection
+func serveTCP(c *Case, req *http.Request, deadline time.Duration) (outcome string, status int, panicText string) {
+	srv := tcpServer()
+	id := fmt.Sprint(c.ID)
+	ch := make(chan string, 1)
+	tcpDone.Store(id, ch)
+	defer tcpDone.Delete(id)
+	conn, err := net.Dial("tcp", srv.Listener.Addr().String())
+	if err != nil {
+		return "resp", 599, "dial: " + err.Error()
+	}
+	req.Header.Set("X-Case", id)
+	req.Header.Set("Connection", "close")
+	req.URL.Host = srv.Listener.Addr().String()
+	req.Host = req.URL.Host
+	go func() {
+		_ = req.Write(conn)
+		n := 1 << 30
+		if c.AbortAfter != nil {
+			n = *c.AbortAfter
+		}
+		buf := make([]byte, 4096)
+		for n > 0 {
+			k := len(buf)
+			if k > n {
+				k = n
+			}
+			conn.SetReadDeadline(time.Now().Add(deadline))
+			m, err := conn.Read(buf[:k])
+			n -= m
+			if err != nil {
+				break
+			}
+		}
+		if tc, ok := conn.(*net.TCPConn); ok && c.AbortAfter != nil {
+			tc.SetLinger(0) // RST: the peer's next write fails
+		}
+		conn.Close()
+	}()
+	select {
+	case p := <-ch:
+		st := 200
+		if v, ok := tcpStatus.Load(id); ok {
+			st = v.(int)
+		}
+		if p != "" {
+			return "abort", 0, p
+		}
+		return "resp", st, ""
+	case <-time.After(deadline):
+		return "hang", 0, ""
+	}
+}
+
 // runCase returns nil when the handler did not return within the deadline (caller must exit).
 func runCase(c *Case, deadline time.Duration) *Obs {
 	obs := &Obs{}
@@ -204,21 +326,29 @@ func runCase(c *Case, deadline time.Duration) *Obs {
 		return obs
 	}
 	rec := httptest.NewRecorder()
+	var w http.ResponseWriter = rec
+	if c.AbortAfter != nil && !c.Tcp {
+		w = &abortWriter{rec: rec, limit: *c.AbortAfter, cancel: cancel}
+	}
 	done := make(chan string, 1)
 	t0 := time.Now()
-	go func() {
-		// net/http recovers a handler panic, logs it and closes the connection: no HTTP response
-		defer func() {
-			if r := recover(); r != nil {
-				done <- fmt.Sprint(r)
-				return
-			}
-			done <- ""
-		}()
-		router.ServeHTTP(rec, req)
-	}()
+	if c.Tcp {
+		oc, st, p := serveTCP(c, req, deadline)
+		obs.Ms = time.Since(t0).Milliseconds()
+		obs.Outcome, obs.Status, obs.Panic = oc, st, p
+		if oc == "hang" {
+			cancel()
+			return obs
+		}
+		done <- "\x00tcp"
+	} else {
+		go runInProcess(w, req, done)
+	}
 	select {
 	case p := <-done:
+		if p == "\x00tcp" {
+			break
+		}
 		obs.Ms = time.Since(t0).Milliseconds()
 		if p != "" {
 			obs.Outcome = "abort"
@@ -233,6 +363,24 @@ func runCase(c *Case, deadline time.Duration) *Obs {
 		obs.Ms = time.Since(t0).Milliseconds()
 		return obs
 	}
+	return finishCase(c, obs, rec, cancel, base, rows0, q0)
+}
+
+func runInProcess(w http.ResponseWriter, req *http.Request, done chan string) {
+	func() {
+		// net/http recovers a handler panic, logs it and closes the connection: no HTTP response
+		defer func() {
+			if r := recover(); r != nil {
+				done <- fmt.Sprint(r)
+				return
+			}
+			done <- ""
+		}()
+		router.ServeHTTP(w, req)
+	}()
+}
+
+func finishCase(c *Case, obs *Obs, rec *httptest.ResponseRecorder, cancel context.CancelFunc, base map[string]gor, rows0, q0 int64) *Obs {
 	cancel() // what net/http does with the request context once the handler returned
 	obs.BodyLen = rec.Body.Len()
 	if obs.Status >= 400 {
@@ -250,6 +398,9 @@ func runCase(c *Case, deadline time.Duration) *Obs {
 	waitMs := c.WaitMs
 	if waitMs <= 0 {
 		waitMs = 900
+	}
+	if leaksSeen >= 8 && waitMs > 200 {
+		waitMs = 200 // leaks are established in this process: do not spend the budget waiting for more of them
 	}
 	tEnd := time.Now().Add(time.Duration(waitMs) * time.Millisecond)
 	for i := 0; ; i++ {
@@ -269,6 +420,9 @@ func runCase(c *Case, deadline time.Duration) *Obs {
 	}
 	for _, g := range left {
 		obs.Leaked = append(obs.Leaked, qrynFrames(g.text))
+	}
+	if len(left) > 0 {
+		leaksSeen++
 	}
 	sort.Strings(obs.Leaked)
 	obs.RowsOpen = atomic.LoadInt64(&openRows) - rows0
@@ -397,8 +551,18 @@ func runBatch(self string, batch []*Case, dir string, tag string, deadline time.
 			os.Exit(2)
 		}
 		var nr []*Case
+		hangs := 0
+		for _, c := range batch {
+			if c.Obs != nil && c.Obs.Outcome == "hang" {
+				hangs++
+			}
+		}
 		for _, c := range rest {
 			if c.Obs == nil {
+				if hangs >= 3 {
+					c.Obs = &Obs{Outcome: "skipped"} // the batch keeps hanging: enough evidence, keep the run short
+					continue
+				}
 				nr = append(nr, c)
 			}
 		}
@@ -421,6 +585,7 @@ func main() {
 	memMB := flag.Uint64("mem-mb", 6144, "address-space limit of a worker (MiB), 0 = none")
 	par := flag.Int("par", 6, "parallel workers")
 	batchSz := flag.Int("batch", 60, "cases per worker process")
+	budgetS := flag.Int("budget-s", 0, "overall time budget of the parent in seconds (0 = none): batches not started by then are skipped")
 	fl := hx.ParseFlags()
 	deadline := time.Duration(*deadlineMs) * time.Millisecond
 	if *isWorker {
@@ -450,14 +615,22 @@ func main() {
 	}
 	defer os.RemoveAll(dir)
 	var wg sync.WaitGroup
+	tStart := time.Now()
 	sem := make(chan struct{}, *par)
 	for k := 0; k*(*batchSz) < len(cases); k++ {
 		lo, hi := k*(*batchSz), (k+1)*(*batchSz)
 		if hi > len(cases) {
 			hi = len(cases)
 		}
-		wg.Add(1)
 		sem <- struct{}{}
+		if *budgetS > 0 && time.Since(tStart) > time.Duration(*budgetS)*time.Second {
+			<-sem
+			for _, c := range cases[lo:hi] {
+				c.Obs = &Obs{Outcome: "skipped"}
+			}
+			continue
+		}
+		wg.Add(1)
 		go func(k int, b []*Case) {
 			defer wg.Done()
 			defer func() { <-sem }()
